@@ -425,6 +425,11 @@ var families = []fam{
 	}},
 }
 
+// families that call exactly one finisher on the handle they are given
+var singleCall = map[string]bool{"create_assoc": true, "create_slice": true, "preload": true, "preload_nested": true,
+	"joins": true, "joins_preload": true, "count": true, "pluck": true, "first": true, "updates": true, "update_where": true,
+	"delete_where": true, "exec": true, "rows": true, "row": true, "scan": true, "raw_scan": true, "create_in_batches": true}
+
 func famByName(n string) *fam {
 	for i := range families {
 		if families[i].name == n {
@@ -788,6 +793,11 @@ func main() {
 			d := ""
 			if r.Chance(1, 3) {
 				d = lib.Pick(r, derivations)
+				// Session{Initialized: true} hands out an instance, not a reusable handle: a family that
+				// issues several finisher calls from the same handle would be caller misuse
+				if has(d, "initialized") && !singleCall[f.name] {
+					d = "new_db+skip_hooks"
+				}
 			}
 			in.Ops = append(in.Ops, OpIn{Fam: f.name, Bind: lib.Pick(r, []string{"with", "session"}), Tag: tag, Cancelled: r.Chance(1, 8), Derive: d})
 		}
